@@ -21,6 +21,8 @@ def run(tier, seed):
     _, r2 = run_hex(rep, "A/C: H4xSL batch<=2 commit + failing commit writes", universe="H4", values=("S", "L"), prune=False, props=P,
                     batch_len=2, exits=("commit", "abort", "wfail"), direct=False)
     _, r3 = run_hex(rep, "A: H7xSL direct", universe="H7", values=("S", "L"), prune=False, props=P)
+    run_hex(rep, "A/C: HCxSL batch<=2 (a transient node of the batch equals a node the batch creates elsewhere)", universe="HC", values=("S", "L"),
+            prune=False, props=P, batch_len=2, exits=("commit", "abort", "wfail"))
     from ..alphabet import Labels
     lab = Labels(seed)
     k = lab.keys("H3S")
